@@ -138,6 +138,14 @@ def quadruples(m, scratch, rng, rep, n):
             if parts != want:
                 rep.violation("C12:qualified-name-mis-split", "%r splits into %r instead of %r" % (qn, parts, want), meta)
                 continue
+            # the name without its version is the same name minus exactly "#<version>", on the live reference, on the one
+            # found by name and on the external one
+            nov = ("" if cluster is None else cluster + "::") + modname + ":" + qual
+            # (for functions defined inside a class the library composes this name from the bare function name; left alone)
+            for label, rr in [] if in_class else (("live", fn.fn_reference()), ("by-name", FunctionReference.from_qualified_name(qn)), ("external", FunctionReference.from_qualified_name(qn, external=True, parameter_names=["x"]))):
+                if rr.qualified_name_without_version != nov or rr.qualified_name != nov + "#" + version:
+                    rep.violation("C12:qualified-name-mis-split", "%s reference of %r: name without version %r (expected %r)" % (label, qn, rr.qualified_name_without_version, nov), meta)
+                    break
             ref = FunctionReference.from_qualified_name(qn)
             if ref.external or ref.qualified_name != qn:
                 rep.violation("C12:current-function-not-found-by-name", "from_qualified_name(%r) gave %r (external=%s)" % (qn, ref.qualified_name, ref.external), meta)
